@@ -78,6 +78,24 @@ func raDecode(b []byte, t wire.Type, plan simio.Plan) outcome {
 	})
 }
 
+// raEvaluate: random-access reader + wire.EvaluateValue (which closes the containers it walks,
+// so the value is not looked at afterwards).
+func raEvaluate(b []byte, t wire.Type, plan simio.Plan) outcome {
+	return guard(func() outcome {
+		ra := simio.NewReaderAt(b, plan)
+		ra.Budget = budgetFor(len(b))
+		r := tbin.NewReader(ra)
+		v, off, err := r.ReadValue(t, int64(plan.Start))
+		if err != nil {
+			return outcome{err: err.Error()}
+		}
+		if err := wire.EvaluateValue(v); err != nil {
+			return outcome{err: "evaluate: " + err.Error()}
+		}
+		return outcome{ok: true, used: off - int64(plan.Start)}
+	})
+}
+
 // stDecode: the harness decoder over the library's stream reader.
 func stDecode(b []byte, t wire.Type, plan simio.Plan) outcome {
 	return guard(func() outcome {
@@ -125,10 +143,32 @@ func genInput2(o genOpts) (byte, []byte, string, string) {
 	class := "valid"
 	t := genType()
 	desc := ""
-	kind := simrt.ChoiceBias("in.kind", 5, 0.35)
+	kind := simrt.ChoiceBias("in.kind", 6, 0.35)
 	var b []byte
 	var marks ref.Marks
 	switch kind {
+	case 5:
+		// deep nesting: lists of lists of ... or structs in structs, a few to a few hundred levels
+		depth := []int{8, 63, 64, 65, 66, 100, 300}[ch("deep.levels", 7)]
+		v := ref.I32(int32(ch("deep.leaf", 100)))
+		if ch("deep.shape", 2) == 0 {
+			for i := 0; i < depth; i++ {
+				v = ref.Val{T: ref.TList, VT: v.T, Items: []ref.Val{v}}
+			}
+		} else {
+			for i := 0; i < depth; i++ {
+				v = ref.Struct(ref.F(int16(1+i%3), v))
+			}
+		}
+		t = v.T
+		b = ref.EncodeMarked(nil, v, &marks)
+		desc = fmt.Sprintf("nested %d levels", depth)
+		if simrt.Flip("deep.mutate", 0.2) {
+			var name string
+			b, name = mutate(b, &marks, 0)
+			desc += "+" + name
+			class = "mutated"
+		}
 	case 4:
 		// "count bomb": a struct of fixed-width fields followed by a container of
 		// fixed-width elements whose declared count sits at an arithmetic boundary
@@ -270,6 +310,15 @@ func RunC03(cfg simrt.Config, o world.Opts) *world.Result {
 			return
 		}
 		res.Nontrivial = true
+		// the library's own way of forcing (wire.EvaluateValue) must succeed exactly when a
+		// walk over every lazy container succeeds
+		if ev := raEvaluate(b, wt, full); ev.panic != "" {
+			res.Failf("C03/panic", "wire.EvaluateValue panicked on %x as %s: %s", clip(b, 64), ref.TypeName(t), first(ev.panic, 500))
+			return
+		} else if !ev.budget && ev.ok != base.ok {
+			res.Failf("C03/evaluate-disagrees", "decode of %x as %s: forcing every container by walking it -> %s, wire.EvaluateValue -> %s", clip(b, 64), ref.TypeName(t), base, ev)
+			return
+		}
 		if base.ok {
 			res.Count("c03.baseline-ok", 1)
 			res.Count("c03.ok."+class, 1)
